@@ -153,4 +153,9 @@ theorem source_revokePartitionAssignments : GeneratedSrc.revokePartitionAssignme
 theorem source_kcReceive : GeneratedSrc.kcReceive = ExpectedSrc.kcReceive := by rfl
 theorem source_rcRecoverSingleEvent : GeneratedSrc.rcRecoverSingleEvent = ExpectedSrc.rcRecoverSingleEvent := by rfl
 
+
+/-! ### functions the model's assumptions rest on (construction, wiring, surrounding calls) are unchanged -/
+theorem source_kcShutdown : GeneratedSrc.kcShutdown = ExpectedSrc.kcShutdown := by rfl
+theorem source_kcStart : GeneratedSrc.kcStart = ExpectedSrc.kcStart := by rfl
+
 end Firebolt.C09
